@@ -298,7 +298,7 @@ def build_cases(g, ctx):
     cases = g.cases
     P = hx(p)
     norders = len(g.orders)
-    per_order = 9 if quick else 30
+    per_order = 9 if quick else 60
     xcls = ["tiny", "small", "word", "big"]
     ncls = ["prime_small", "prime_big", "composite", "pow2", "nx", "nx_multiple", "divisor", "coprime", "one"]
     pool = {}            # order index -> list of (canonical lattice, norm, x raw, N)
@@ -687,6 +687,30 @@ def cert_lines(p, cases, couts):
     return out
 
 
+# ------------------------------------------------------------------------------------------------ bounded process runs
+def run_lines(cmd, lines, timeout, tag=""):
+    """feed op lines to a driver; on timeout the process is killed and the lines answered so far are returned
+    (a changed search loop in ideal.c can turn one op into ~10^9 iterations: that op is then reported, not waited for)"""
+    import subprocess
+    env = dict(os.environ)
+    env.setdefault("ASAN_OPTIONS", "detect_leaks=0:abort_on_error=0")
+    pr = subprocess.Popen(cmd, stdin=subprocess.PIPE, stdout=subprocess.PIPE, stderr=subprocess.PIPE, env=env)
+    timed_out = False
+    try:
+        so, se = pr.communicate(("\n".join(lines) + "\n").encode(), timeout=timeout)
+    except subprocess.TimeoutExpired:
+        pr.kill()
+        so, se = pr.communicate()
+        timed_out = True
+    txt = so.decode("utf-8", "replace").split("\n")
+    if txt and txt[-1] == "":
+        txt = txt[:-1]
+    elif timed_out and txt:
+        txt = txt[:-1]              # drop a partially written last line
+    outs = [l[len(tag):] for l in txt if l.startswith(tag)] if tag else txt
+    return pr.returncode, outs, se.decode("utf-8", "replace")[-3000:], timed_out
+
+
 # ------------------------------------------------------------------------------------------------ per level driver
 def run_level(ctx, lvl, exe, quick, cov):
     t0 = time.time()
@@ -711,11 +735,14 @@ def run_level(ctx, lvl, exe, quick, cov):
     res["t_gen"] = time.time() - t0
     lines = [c.line for c in cases]
     midx = [i for i, c in enumerate(cases) if c.line.startswith("id.")]
+    tmo = 150 if quick else 1200
+    lean_exe = os.path.join(vlib.LEAN, ".lake", "build", "bin", "driver")
     with ThreadPoolExecutor(2) as ex:
-        fc = ex.submit(vlib.run_c, [exe], lines)
-        fm = ex.submit(ctx.driver, [lines[i] for i in midx])
-        rc, couts, cerr = fc.result()
-        mo_ = fm.result()
+        fc = ex.submit(run_lines, [exe], lines, tmo, "R ")
+        fm = ex.submit(run_lines, [lean_exe], [lines[i] for i in midx], tmo)
+        rc, couts, cerr, c_to = fc.result()
+        _mrc, mo_, _merr, m_to = fm.result()
+    res["timeouts"] = dict(c=c_to, model=m_to)
     mouts = [None] * len(lines)
     for k, i in enumerate(midx):
         mouts[i] = mo_[k] if k < len(mo_) else "<no output>"
@@ -728,7 +755,8 @@ def run_level(ctx, lvl, exe, quick, cov):
         mo = mouts[i]
         if co is None:
             res["violations"].append(dict(key="C15:L%d:crash:%s" % (lvl, c.kind), found=True,
-                                          what="C driver stopped (crash / abort) while processing this op, rc=%d" % rc,
+                                          what=("C code did not finish this op within %d s (search loop no longer terminates early?)" % tmo) if c_to
+                                          else "C driver stopped (crash / abort) while processing this op, rc=%s" % rc,
                                           replay=dict(level=lvl, op=c.line, stderr=cerr[-1500:], how="echo '<op>' | drv_ideal (level %d)" % lvl)))
             break
         err = None
